@@ -5,6 +5,14 @@ coordinates of the four points and compared with the IUPAC closed form  y_ref = 
 x_ref = (b1 x b2).(b2 x b3).  Range, reversal symmetry, mirror antisymmetry and rigid invariance then follow from the
 closed form.  Plus: degenerate guards are collinearity tests only, the value returned is the atan2 in radians, the
 users pass the right atoms in the right order and keep units consistent.
+
+Round 4: a torsion function whose angle is NOT made by one plain atan2 (acos with a sign, copysign, a conditional, two
+atan2 ...) is read on the whole circle (sa/circle.py): sine / cosine terms are identified by polynomial identities and the
+rest of the function is evaluated symbolically on the eight cells phi = 0, pi/2, pi, -pi/2 and the open quadrants; it must
+return phi on every cell (so `sign(s) * acos(c)`, which gives 0 at phi = pi, is a violation, `copysign(acos(c), s)` is not).
+The inter-stem torsion is evaluated on stub stems (rule interstem-points: neighbour, end, end, neighbour about the closest
+pair of stem ends) and tertiary_v2's find_atom / Atom.coordinates on stub frames over call histories (rule
+lookup-current-state: a lookup after a change of the coordinates sees the change).
 """
 from __future__ import annotations
 
@@ -311,7 +319,10 @@ def run(chk) -> None:
         "atan2 is brought to bounds Q < c on monomials in norms (thresholds folded numerically, through np.sin / arcsin / degrees / min / not): Q must be the norm of a cross product of consecutive bonds, the sine "
         "of a bond angle or a bond length, and c <= 1e-3. The statements after the atan2 are evaluated on representative values and proved to return the value unchanged. Users are decided by evaluation of "
         "the fragments on stubs: chi of Residue3D on 12 one-letter names x 11 sets of atoms, chi_class on one chi per cell, the tertiary_v2 torsion table on five stub-segment scenarios, against the IUPAC atom "
-        "table; cis/trans, BPh splits and inter-stem units as before."
+        "table; the inter-stem torsion on stub stems (which pair of stem ends is closest x stem lengths: the four points are neighbour, end, end, neighbour; radians scored, degrees reported); "
+        "tertiary_v2.Residue.find_atom / Atom.coordinates on stub frames (what was looked up before x in-place change of the coordinates / replaced frame: a lookup answers from the current frame); "
+        "cis/trans and BPh splits as before. A torsion function that is not one plain atan2 is evaluated symbolically on the eight cells of the circle (acos / asin / atan2 / sign / copysign / "
+        "conditionals over the sine and cosine terms) and must return phi on every cell, phi = 0 and phi = pi included."
     )
     chk.trusted = ["CPython ast", "numpy cross/dot/norm/arctan2 semantics", "IUPAC-IUB torsion table (spec/iupac_torsions.json)"]
     chk.assumptions = ["non-degenerate input (no three consecutive points collinear)", "floating-point error is not decided"]
@@ -327,7 +338,9 @@ MANIFEST_ENTRY = {
     "text": "Exact algebraic decision on the current source: for both torsion implementations the atan2 arguments, as polynomials in the 12 coordinates (with positive norm symbols), satisfy y * x_ref = x * y_ref "
     "with x a positive multiple of x_ref, where (y_ref, x_ref) is the IUPAC closed form - a proof over all non-degenerate point quadruples, which constructed-angle sampling can only approximate. "
     "tertiary.py = IUPAC; tertiary_v2.py = exact negation (known finding F18, pinned by a test, reported as KNOWN-FINDING). Degenerate guards are decided as bounds on norm monomials with numerically folded thresholds; "
-    "the returned value, the atom quadruples of chi / the backbone table and the units of chi_class are decided by evaluating the fragments on input-class representatives (stub residues and segments).",
-    "note": "Trusted: numpy primitives; the algebra engine (sa/polyalg.py). Not decided: degenerate branches (0.0 vs NaN), floating-point error.",
+    "the returned value, the atom quadruples of chi / the backbone table, the units of chi_class, the four points of the inter-stem torsion and the freshness of the coordinates a lookup returns are decided by "
+    "evaluating the fragments on input-class representatives (stub residues, segments, stems, frames with a call history). Closed forms other than one atan2 (acos with a sign, copysign, conditionals) are decided "
+    "symbolically on the eight cells of the circle.",
+    "note": "Trusted: numpy primitives; the algebra engine (sa/polyalg.py). Not decided: degenerate branches (0.0 vs NaN), floating-point error, signed zeros; whether the mean angle mu of each inter-stem arrangement is the right one (a datum).",
     "technique": "static analysis: abstract interpretation of straight-line vector code into polynomial normal forms + polynomial identity check against the IUPAC closed form",
 }
